@@ -4,11 +4,14 @@
 
   Proved here: boolean schemas round-trip; the emitted object never repeats a key; Extra round-trips;
   the table obligations over the generated struct description.  The scalar fragment of the full round
-  trip is `roundtrip_scalar_fragment`; what is missing for the full statement is listed at the end.
+  trip is `roundtrip_scalar_fragment`; the round trip of whole schema trees (every keyword; no nil child) is
+  `roundtrip_tree` (helper lemmas: JSV/Proofs/MshTree.lean); what is missing for the full statement is listed
+  after it.
 -/
 import JSV.Proofs.MshRound
 import JSV.Proofs.MshScalar
 import JSV.Proofs.MshFacts
+import JSV.Proofs.MshTree
 namespace JSV.C05
 open JSV Go
 
@@ -207,18 +210,91 @@ example (mrec : Go.MRec) (urec : Go.URec) :
     Go.unmarshalStep urec (.obj [("minLength", .num 2147483648)]) #[] = .err :=
   ⟨by rfl, by rfl⟩
 
+/-! ## the round trip of whole schema trees -/
+
+/-- `TreeWF st id`: the tree below `id` — through the schema-valued keywords (`Node.children`: not, if / then / else,
+    items / itemsArray / prefixItems / additionalItems, contains, additionalProperties, propertyNames, unevaluated*,
+    contentSchema, allOf / anyOf / oneOf, properties / patternProperties / $defs / definitions / dependentSchemas /
+    dependencySchemas) — is finite and acyclic (at most `st.size` deep), has no nil child, and every node of it
+    satisfies `Go.nodeOK` and `Go.nodeOrd`:
+    * MarshalJSON's own checks pass (not both `type` and `types`, not both `$defs` and `definitions`, not both `items`
+      and `itemsArray`, no duplicate in PropertyOrder, DependencySchemas and DependencyStrings disjoint), no Extra key
+      is a struct name;
+    * H_D4: no Extra key is a case variant of a keyword;
+    * the values of Extra, `enum`, `const`, `examples` are in the form encoding/json writes a decoded `any`
+      (`Go.jsonSorted`: object keys ascending at every depth) — `default` is raw bytes, no condition;
+    * the eight integer keywords are inside the int32 window of the `integer` helper (`Go.int32B`);
+    * (`Go.nodeOrd`, only needed for "marshals again to the same JSON") "properties" is written in ascending key
+      order, i.e. PropertyOrder — `json:"-"`, never read back — does not reorder it, and DependencySchemas is
+      enumerated in ascending key order (a representation choice: the list order of a map field is its iteration
+      order, which does not influence what is written).
+    Decidable: `by decide` on concrete stores. -/
+def TreeWF (st : Store) (id : NodeId) : Prop := Go.treeAll Go.nodeWF st st.size id = true
+
+instance (st : Store) (id : NodeId) : Decidable (TreeWF st id) :=
+  inferInstanceAs (Decidable (Go.treeAll Go.nodeWF st st.size id = true))
+
+/-- `roundtrip_tree`.  For a well-formed tree: whatever MarshalJSON writes for it, UnmarshalJSON reads back — into any
+    store `st₂` — as a tree that is equal to the original up to the documented normal forms (`Go.TreeEq`, i.e.
+    `Go.normNode` at every node: every keyword and every Extra entry kept;
+    `required: []` ↦ nil (`Go.normReq`); Extra in ascending key order or nil if empty (`Go.normExtra`);
+    `examples: []`, `prefixItems: []`, `allOf: []` and every empty map ↦ nil (omitempty; `Go.normJL`, `Go.normList`,
+    `Go.normMap`, `Go.normKV`), while `anyOf: []` / `oneOf: []` / `enum: []` / `itemsArray: []` / `properties: {}` are
+    kept; every map in ascending key order; a nil list in DependencyStrings ↦ `[]` (`Go.normDepStrs`);
+    "properties" in the order orderedProperties wrote it (`Go.propEntries`), PropertyOrder nil; every schema-valued
+    keyword pointing to the rebuilt copy of its subtree — the boolean schemas `true` / `false` come back as
+    `&Schema{}` / `&Schema{Not: &Schema{}}` whatever node was written as `true` / `false`),
+    and marshaling the rebuilt tree gives the same JSON value again.
+    Member kinds covered: all of them — the single-schema, schema-list and schema-map members including "properties"
+    (orderedProperties), the "items" union and the draft-07 "dependencies" union; the scalar members, `type` (string
+    or list), `required`, the `any`-typed members (enum, const, default, examples), `$vocabulary`,
+    `dependentRequired` and Extra.  Excluded by `TreeWF`: nil children (a `null` in a schema position). -/
+theorem roundtrip_tree (st : Store) (id : NodeId) (j : Json) (st₂ : Store)
+    (hwf : TreeWF st id) (hj : Go.marshal st id = .ok j) :
+    ∃ id' st₂', Go.unmarshal j st₂ = .ok (id', st₂') ∧ Go.TreeEq st st₂' (st.size + 2) id id' ∧
+      Go.marshal st₂' id' = .ok j :=
+  Go.roundtrip_tree_core st st.size id j st₂ hwf hj
+
+/-- the first half without the condition on the order of "properties": any depth bound `d`, only `Go.nodeOK` at
+    every node; the old store is untouched (`Go.Ext`) -/
+theorem roundtrip_tree_eq (st : Store) (d : Nat) (id : NodeId) (j : Json) (st₂ : Store)
+    (hwf : Go.treeAll Go.nodeOK st d id = true) (hj : Go.marshal st id = .ok j) :
+    ∃ id' st₂', Go.unmarshal j st₂ = .ok (id', st₂') ∧ Go.Ext st₂ st₂' ∧ Go.TreeEq st st₂' (st.size + 2) id id' := by
+  obtain ⟨id', st₂', h1, h2, h3, -⟩ := Go.roundtrip_tree_eq_core st d id j st₂ hwf hj
+  exact ⟨id', st₂', h1, h2, h3⟩
+
+/-- what `Go.TreeEq` says at the root: both nodes exist and agree — up to `Go.normNode` — on every keyword that is
+    not schema-valued (`setChildFields · []` erases the schema-valued ones) … -/
+theorem treeEq_root {st st' : Store} {d : Nat} {a b : NodeId} (h : Go.TreeEq st st' d a b) :
+    ∃ n n', st.get? a = some n ∧ st'.get? b = some n' ∧
+      Go.setChildFields n' [] = Go.setChildFields (Go.normNode n) [] := by
+  cases d with
+  | zero => exact h.elim
+  | succ d =>
+    obtain ⟨n, n', ha, hb, fs', -, rfl⟩ := h
+    exact ⟨n, _, ha, hb, rfl⟩
+
+/-- … and the schema-valued keywords have the same shape and keys, with equal subtrees below them (`Go.NodeRel`) -/
+theorem treeEq_children {st st' : Store} {d : Nat} {a b : NodeId} (h : Go.TreeEq st st' (d + 1) a b) :
+    ∃ n n', st.get? a = some n ∧ st'.get? b = some n' ∧ Go.NodeRel (Go.TreeEq st st' d) (Go.normNode n) n' := h
+
+/-- equal trees marshal identically, whatever the fuel (the second half of `roundtrip_tree`) -/
+theorem treeEq_marshal {st st' : Store} (f d d' : Nat) (a b : NodeId)
+    (hwf : Go.treeAll Go.nodeWF st d a = true) (h : Go.TreeEq st st' d' a b) :
+    Go.marshalFuel st f a = Go.marshalFuel st' f b :=
+  Go.TreeEq.marshal_eq f d d' a b hwf h
+
 /-! ### What is missing for the full round trip
-  * subschema-valued keywords (the 23 fields of C20): needs the recursion over the tree; UnmarshalJSON
-    allocates new Schemas, so the statement must be "the rebuilt tree is a copy" (`Go.Sim` of
-    JSV/Proofs/MshClone.lean) rather than equality of nodes, plus the fuel bounds of marshal / unmarshal;
-  * `any`-typed keywords (enum, const, default, examples) and Extra values: equal only up to the key order
-    of nested objects (`sortJson`), `const: null` and `default` raw bytes need their own statements;
-  * map-typed keywords ($vocabulary, dependentRequired, the schema maps): equal up to map order (`Perm`);
-  * the `dependencies` union (DependencySchemas / DependencyStrings) and `items` union;
-  * Extra together with subschema / any-typed / map-typed members (Extra with scalars is covered above);
-  * `required: []`, empty-but-non-nil slices and maps in general (omitempty) — `normReq` above;
+  * `roundtrip_tree_meaning` (the two trees accept the same instances) is not proved: `Go.validateFuel` runs on a
+    resolved environment (`VEnv`: infos / anchors / bases per NodeId), so the statement needs `Resolve` of both
+    stores and an invariance of validation under a renaming of NodeIds (the `Inv.validateFuel_map` lemmas keep the
+    NodeIds fixed); `treeEq_marshal` is the corresponding statement for MarshalJSON;
+  * nil children (`null` elements of schema lists / maps come back as nil pointers, a nil `*Schema` field that is
+    set explicitly cannot be told from an absent one);
+  * `any`-typed values (enum, const, examples, Extra) are covered in the form encoding/json writes (`Go.jsonSorted`);
+    for other values the statement would be "equal up to the key order of nested objects" (`sortJson` idempotent);
   * PropertyOrder is not written at all (`json:"-"`), it never round-trips except through the order of
-    "properties", which UnmarshalJSON does not read back.
+    "properties", which UnmarshalJSON does not read back: see the example below (`Go.nodeOrd`).
 -/
 
 /-! ## table obligations over the generated description of the Schema struct -/
@@ -354,5 +430,103 @@ example (mrec : Go.MRec) (urec : Go.URec) (st2 : Store) (j : Json)
 example (mrec : Go.MRec) (urec : Go.URec) (st2 : Store) :
     Go.marshalStep #[{ required := some [] }] mrec 0 = .ok (.bool true) ∧
     Go.unmarshalStep urec (.bool true) st2 = .ok (st2.alloc {}) := ⟨by rfl, by rfl⟩
+
+/-! ### `roundtrip_tree` is not vacuous -/
+
+/-- a tree with "properties" (two entries, listed out of order), "items", "allOf" (two members), the boolean
+    subschema `false` (node 6 over node 7), an integer keyword and an Extra key -/
+def exTree : Store := #[
+  { type := "object", title := "T", minProperties := some 1, required := some ["b"],
+    properties := some [("b", 1), ("a", 2)], items := some 3, allOf := some [4, 5],
+    additionalProperties := some 6, extra := some [("x-note", .str "hi")] },
+  { type := "string", minLength := some 2 },
+  { types := some ["integer", "null"] },
+  { type := "number" },
+  { required := some ["a"] },
+  { maxProperties := some 10 },
+  { not := some 7 },
+  {} ]
+
+def exTreeJson : Json :=
+  .obj [("type", .str "object"),
+        ("properties", .obj [("a", .obj [("type", .arr [.str "integer", .str "null"])]),
+                             ("b", .obj [("type", .str "string"), ("minLength", .num 2)])]),
+        ("items", .obj [("type", .str "number")]),
+        ("title", .str "T"), ("minProperties", .num 1), ("required", .arr [.str "b"]),
+        ("additionalProperties", .bool false),
+        ("allOf", .arr [.obj [("required", .arr [.str "a"])], .obj [("maxProperties", .num 10)]]),
+        ("x-note", .str "hi")]
+
+set_option maxRecDepth 4000 in
+/-- `TreeWF` holds of it, by evaluation -/
+theorem exTree_wf : TreeWF exTree 0 := by decide
+
+/-- the hypothesis `hj` is inhabited … -/
+example : Go.marshal exTree 0 = .ok exTreeJson := by rfl
+
+/-- … and the theorem applies -/
+example (st₂ : Store) :
+    ∃ id' st₂', Go.unmarshal exTreeJson st₂ = .ok (id', st₂') ∧ Go.TreeEq exTree st₂' (exTree.size + 2) 0 id' ∧
+      Go.marshal st₂' id' = .ok exTreeJson :=
+  roundtrip_tree exTree 0 exTreeJson st₂ exTree_wf (by rfl)
+
+/-- the rebuilt tree, read into the empty store: children before parents, "properties" in ascending key order,
+    `false` as `&Schema{Not: &Schema{}}` -/
+example : Go.unmarshal exTreeJson #[] = .ok (7, #[
+    { types := some ["integer", "null"] },
+    { type := "string", minLength := some 2 },
+    { type := "number" },
+    {},
+    { not := some 3 },
+    { required := some ["a"] },
+    { maxProperties := some 10 },
+    { type := "object", title := "T", minProperties := some 1, required := some ["b"],
+      properties := some [("a", 0), ("b", 1)], items := some 2, allOf := some [5, 6],
+      additionalProperties := some 4, extra := some [("x-note", .str "hi")] }]) := by rfl
+
+/-- `Go.nodeOrd` is needed for the second half: with PropertyOrder = ["b"] the members of "properties" are written
+    b, a; PropertyOrder does not come back, so the rebuilt schema writes them a, b — the same JSON object, but not
+    the same member order -/
+example :
+    Go.marshal #[{ properties := some [("a", 1), ("b", 2)], propertyOrder := some ["b"] }, {}, {}] 0 =
+      .ok (.obj [("properties", .obj [("b", .bool true), ("a", .bool true)])]) ∧
+    Go.unmarshal (.obj [("properties", .obj [("b", .bool true), ("a", .bool true)])]) #[] =
+      .ok (2, #[{}, {}, { properties := some [("b", 0), ("a", 1)] }]) ∧
+    Go.marshal #[{}, {}, { properties := some [("b", 0), ("a", 1)] }] 2 =
+      .ok (.obj [("properties", .obj [("a", .bool true), ("b", .bool true)])]) := ⟨by rfl, by rfl, by rfl⟩
+
+/-- a second tree: the draft-07 "dependencies" union (a schema and two string lists, one of them nil), the "items"
+    array form, `$defs` listed out of order, `anyOf: []`, `prefixItems`, the `any`-typed keywords, `$vocabulary` and
+    `dependentRequired` -/
+def exTree2 : Store := #[
+  { dependencySchemas := some [("z", 1)], dependencyStrings := some [("y", some ["a"]), ("x", none)],
+    itemsArray := some [2, 3], defs := some [("q", 1), ("p", 2)], anyOf := some [], prefixItems := some [3],
+    enum := some [.num 1, .obj [("a", .null), ("b", .arr [])]], const := some .null, default := some (.obj [("z", .num 0), ("a", .num 1)]),
+    examples := some [.str "e"], vocabulary := some [("v2", false), ("v1", true)],
+    dependentRequired := some [("k", some ["r"]), ("j", none)] },
+  { type := "null" },
+  { minimum := some 0 },
+  {} ]
+
+set_option maxRecDepth 4000 in
+theorem exTree2_wf : TreeWF exTree2 0 := by decide
+
+example : Go.marshal exTree2 0 = .ok (.obj [
+    ("dependencies", .obj [("x", .arr []), ("y", .arr [.str "a"]), ("z", .obj [("type", .str "null")])]),
+    ("items", .arr [.obj [("minimum", .num 0)], .bool true]),
+    ("enum", .arr [.num 1, .obj [("a", .null), ("b", .arr [])]]),
+    ("anyOf", .arr []),
+    ("$defs", .obj [("p", .obj [("minimum", .num 0)]), ("q", .obj [("type", .str "null")])]),
+    ("$vocabulary", .obj [("v1", .bool true), ("v2", .bool false)]),
+    ("default", .obj [("z", .num 0), ("a", .num 1)]),
+    ("examples", .arr [.str "e"]),
+    ("const", .null),
+    ("prefixItems", .arr [.bool true]),
+    ("dependentRequired", .obj [("j", .null), ("k", .arr [.str "r"])])]) := by rfl
+
+example (st₂ : Store) (j : Json) (hj : Go.marshal exTree2 0 = .ok j) :
+    ∃ id' st₂', Go.unmarshal j st₂ = .ok (id', st₂') ∧ Go.TreeEq exTree2 st₂' (exTree2.size + 2) 0 id' ∧
+      Go.marshal st₂' id' = .ok j :=
+  roundtrip_tree exTree2 0 j st₂ exTree2_wf hj
 
 end JSV.C05
